@@ -68,7 +68,12 @@ type ROp struct {
 	Stats bool
 }
 
+// LastSrcReads / LastSrcSeeks: underlying call counts of the most recent scenario (for
+// choosing fault positions).
+var LastSrcReads, LastSrcSeeks int
+
 type RScenario struct {
+	HasEOFWant string // "" (not checked), or "false": bgzf.HasEOF on the stream must report false
 	Truth     *Truth // when set (C01 read-back), replies carry hpos/dok instead of data/pm
 	Class     string
 	File      *File
@@ -137,6 +142,15 @@ func RunReader(t *tr.Writer, sc RScenario) []tr.M {
 	if res.Res != "ok" {
 		t.Ev("stuck", tr.M{"op": "new", "res": res.Res, "detail": res.Detail, "sig": "reader/new/" + res.Res})
 		return replies
+	}
+	defer func() {
+		src.mu.Lock()
+		LastSrcReads, LastSrcSeeks = src.Reads, src.Seeks
+		src.mu.Unlock()
+	}()
+	if sc.HasEOFWant != "" {
+		he, herr := bgzf.HasEOF(bytes.NewReader(stream))
+		t.Ev("haseof", tr.M{"v": he && herr == nil, "sig": "reader/" + sc.Class + "/haseof"})
 	}
 	emit("new", tr.M{"err": ErrClass(err, nil)})
 	if err != nil {
